@@ -110,6 +110,22 @@ def run_lemmas(ctx, lemmas, procs=16):
         per = {}
         for l, r in zip(owner, results):
             per.setdefault(l.name, []).append(r)
+        # translator validation replays (one completed path per lemma), in parallel
+        from concurrent.futures import ThreadPoolExecutor
+        todo = []
+        for l in ls:
+            ws = [w for r in per.get(l.name, []) for w in r.witnesses]
+            if ws and not any(r.violations or r.error for r in per.get(l.name, [])):
+                todo.append((l, ws[0]))
+
+        def _tv(item):
+            l, w = item
+            v = {"entry": w["entry"], "replay": w["replay"], "kind": "clean", "msg": ""}
+            ok, line = e2run.replay(files, v, known=sorted(known_active), patches=l.replay_patches, scaled_files=getattr(prog, 'scaled_files', None))
+            return l.name, (ok, line, [x for _, x in w["replay"]])
+        if todo:
+            with ThreadPoolExecutor(8) as ex:
+                ctx._tv = dict(getattr(ctx, "_tv", {}), **dict(ex.map(_tv, todo)))
         for l in ls:
             rs = per.get(l.name, [])
             finish_lemma(ctx, l, rs, files, known_active, prog)
@@ -157,6 +173,17 @@ def finish_lemma(ctx, l, rs, files, known_active, prog):
     for sig, vs in by_sig.items():
         reproduced = None
         last = None
+        if sig[0] == "ub":
+            # the Go caller breaks a memory-safety precondition of an assembly routine (out-of-bounds access inside the asm):
+            # undefined behaviour that a native run does not observe; reported from the encoding, triaged by reading
+            v = vs[0]
+            verdict = "sat"
+            ctx.sample({"lemma": l.name, "counterexample": v["replay"], "kind": v["kind"], "msg": v["msg"], "pos": v["pos"], "native": "not observable natively"})
+            ctx.report_violation("%s: memory-safety precondition of an assembly routine violated by its Go caller: %s (at %s); "
+                                 "not observable in a native run, reported from the encoding" % (l.name, v["msg"], v["pos"]),
+                                 {"lemma": l.name, "entry": v["entry"], "files": [os.path.basename(f) for f in files],
+                                  "vec": [x for _, x in v["replay"]], "names": [n for n, _ in v["replay"]], "kind": v["kind"], "msg": v["msg"]})
+            continue
         for v in vs[:4]:
             ok, line = e2run.replay(files, v, known=sorted(known_active), patches=l.replay_patches, scaled_files=getattr(prog, 'scaled_files', None))
             ctx.replays += 1
@@ -178,6 +205,18 @@ def finish_lemma(ctx, l, rs, files, known_active, prog):
                              {"lemma": l.name, "entry": v["entry"], "files": [os.path.basename(f) for f in files],
                               "vec": [x for _, x in v["replay"]], "names": [n for n, _ in v["replay"]], "kind": v["kind"], "msg": v["msg"],
                               "paths_with_this_violation": len(vs)})
+    # translator validation: a completed symbolic path of this lemma, run natively on the model's inputs, must pass every
+    # assumption and assertion of the harness (the executor and the real build agree on that path); replays were run
+    # concurrently by run_lemmas
+    if verdict == "unsat":
+        tv = getattr(ctx, "_tv", {}).get(l.name)
+        if tv is not None:
+            ok, line, vec = tv
+            ctx.replays += 1
+            if not ok:
+                ctx.report_inconclusive("%s: translator validation failed: a completed symbolic path does not replay cleanly on the real build (%s) vec=%s" % (
+                    l.name, line, vec[:40]))
+                verdict = "error"
     ctx.bounds[l.name] = l.bound
     ctx.add_lemma(l.name, verdict, paths=paths, queries=queries, solver_s=round(solver_s, 2), bound=l.bound, desc=l.desc,
                   jobs=len(rs), wall_s=round(max([r.wall_s for r in rs] or [0]), 2), obligation_sites=sum(r.sites for r in rs))
